@@ -573,6 +573,10 @@ fn dump_body<'tcx>(tcx: TyCtxt<'tcx>, did: DefId, out: &mut String) {
                 // polymorphic-level resolution
                 let fty = func.ty(&body.local_decls, tcx);
                 if let ty::FnDef(d, a) = fty.kind() {
+                    // callee declared `unsafe fn` (FFI items and std's raw-parts constructors): the UNSAFE rule's inventory
+                    if !tcx.fn_sig(*d).skip_binder().safety().is_safe() {
+                        out.push_str(",\"unsafe\":true");
+                    }
                     if let Ok(Some(ci)) = Instance::try_resolve(tcx, env, *d, a) {
                         let _ = write!(out, ",\"res\":{},\"resk\":{},\"resl\":{}", js(&dps(tcx, ci.def_id())), js(inst_kind(&ci)), ci.def_id().is_local());
                         let _ = write!(out, ",\"resn\":{}", js(&with_no_trimmed_paths!(format!("{}", ci))));
@@ -873,6 +877,11 @@ impl rustc_driver::Callbacks for Cb {
             }
             let ty = tcx.type_of(did).instantiate_identity().skip_norm_wip();
             let mut entry = format!("{{\"path\":{},\"ty\":{},\"span\":{}", js(&dps(tcx, did)), js(&tys(ty)), span_json(tcx, tcx.def_span(did)));
+            // statics are global state: `static mut`, or a static whose type is not Freeze (interior mutability)
+            if let DefKind::Static { mutability, .. } = kind {
+                let frozen = ty.is_freeze(tcx, TypingEnv::fully_monomorphized());
+                let _ = write!(entry, ",\"static\":true,\"mutable\":{},\"freeze\":{}", mutability.is_mut(), frozen);
+            }
             let val = if matches!(kind, DefKind::Static { .. }) { tcx.eval_static_initializer(did).ok().map(|a| (Some(a), None)) } else { tcx.const_eval_poly(did).ok().map(|v| (None, Some(v))) };
             match val {
                 Some((Some(alloc), _)) => {
